@@ -299,6 +299,32 @@ theorem repeat_estimate_safe_str (c : SizeCfg)
       simp only [Int.natCast_add] at h2 ⊢
       omega
 
+/-- a frozen dict that passes an argument / result check (`limit_memory_usage(engine, (1, d))`) has a table
+    within the quota: `FrozenDict.__sizeof__` counts the dict it owns (whatever the wrapper overhead is) -/
+theorem frozen_dict_measured (c : SizeCfg) (Q : Int) (hq : 0 < Q) (dictSize : Nat)
+    (h : limitMemory Q [(1, c.fdictSize dictSize)] = true) : (dictSize : Int) ≤ Q := by
+  rcases (limitMemory_one Q _).mp h with h0 | h1
+  · omega
+  · unfold SizeCfg.fdictSize at h1
+    simp only [Int.natCast_add] at h1
+    omega
+
+/-- `dict.set(key, value)` refuses before building when the dict, the key and the value together exceed the quota -/
+theorem dict_set_checked (c : SizeCfg) (Q : Int) (hq : 0 < Q) (ds ks vs : Nat)
+    (h : dictSetCheck c Q ds ks vs = true) : (ds : Int) + ks + vs ≤ Q := by
+  unfold dictSetCheck limitMemory at h
+  have : ¬ Q ≤ 0 := by omega
+  simp only [this, if_false, limitMemoryGo, Int.zero_add, Int.one_mul] at h
+  unfold SizeCfg.fdictSize at h
+  simp only [Int.natCast_add] at h
+  split at h
+  · cases h
+  · split at h
+    · cases h
+    · split at h
+      · cases h
+      · omega
+
 /-! ## `memorize` and the argument / result checks -/
 
 /-- `utils.memorize` never holds a remembered list above the quota: a pull that would make it larger raises -/
